@@ -23,6 +23,18 @@ Proof. exact l010_fix_idempotent. Qed.
 Theorem C17_l007_fix_idempotent : forall t, i_l007_fix (i_l007_fix t) = i_l007_fix t.
 Proof. exact (l007_fix_idempotent_gen letter digit upper keywords_tab up_letter up_noquote up_idem). Qed.
 
+(* the CLI's --auto-fix loop (L001, L002, L003, L010, L007 in sequence) and the language server's format action *)
+Theorem C17_cli_fix_idempotent : forall t, i_cli_fix (i_cli_fix t) = i_cli_fix t.
+Proof.
+  exact (cli_fix_idempotent letter digit space upper keywords_tab up_letter up_noquote up_idem up_nows up_keynoquote
+           (proj1 space_32_9) (proj1 (proj2 space_32_9)) (proj2 (proj2 space_32_9))).
+Qed.
+Theorem C17_format_idempotent : forall tab spaces final t,
+  i_format tab spaces final (i_format tab spaces final t) = i_format tab spaces final t.
+Proof.
+  exact (format_idempotent space upper (proj1 space_32_9) (proj1 (proj2 space_32_9)) (proj2 (proj2 space_32_9))).
+Qed.
+
 (* ---- re-lint: no violation of the rule remains after its fix ---- *)
 Theorem C17_l001_fix_clears : forall t, wft t -> l001_check (l001_fix t) = [].
 Proof. exact l001_fix_clears. Qed.
@@ -60,21 +72,97 @@ Proof. exact (l007_case_only letter digit upper keywords_tab up_idem). Qed.
 
 (* ---- meaning: read as code, a text keeps its sequence of character runs and separators under every rewriter
         (nothing added, dropped or merged; only the amount of whitespace and letter case change) ---- *)
-Definition reading := cview space upper.
-Theorem C17_l001_keeps_reading : forall t, reading (l001_fix t) = reading t.
+Definition code_reading := cview space upper.
+Theorem C17_l001_keeps_code_reading : forall t, code_reading (l001_fix t) = code_reading t.
 Proof. exact (l001_cview space upper). Qed.
-Theorem C17_l002_keeps_reading : forall t, reading (l002_fix t) = reading t.
+Theorem C17_l002_keeps_code_reading : forall t, code_reading (l002_fix t) = code_reading t.
 Proof. exact (l002_cview space upper). Qed.
-Theorem C17_l003_keeps_reading : forall t, reading (i_l003_fix t) = reading t.
+Theorem C17_l003_keeps_code_reading : forall t, code_reading (i_l003_fix t) = code_reading t.
 Proof. exact (l003_cview space upper 1). Qed.
-Theorem C17_l010_keeps_reading : forall t, reading (l010_fix t) = reading t.
+Theorem C17_l010_keeps_code_reading : forall t, code_reading (l010_fix t) = code_reading t.
 Proof. exact (l010_cview space upper). Qed.
-Theorem C17_l007_keeps_reading : forall t, reading (i_l007_fix t) = reading t.
+Theorem C17_l007_keeps_code_reading : forall t, code_reading (i_l007_fix t) = code_reading t.
 Proof. exact (l007_cview space upper letter digit keywords_tab up_idem up_nows). Qed.
-Theorem C17_cli_keeps_reading : forall t, reading (i_cli_fix t) = reading t.
+Theorem C17_cli_keeps_code_reading : forall t, code_reading (i_cli_fix t) = code_reading t.
 Proof. exact (cli_cview letter digit space upper keywords_tab up_idem up_nows). Qed.
-Theorem C17_format_keeps_reading : forall tab spaces final t, reading (i_format tab spaces final t) = reading t.
+Theorem C17_format_keeps_code_reading : forall tab spaces final t, code_reading (i_format tab spaces final t) = code_reading t.
 Proof. exact (format_cview space upper). Qed.
+
+
+(* ---- the full statement and what holds of it -----------------------------------------------------------
+   Full strength (the property): for every rewriter F in { L001, L002, L003, L010, L007 fix, the CLI loop,
+   formatSQL } and every text t,      lex_reading (F t) = lex_reading t
+   where lex_reading classifies every character by the SQL lexical rules and reads literals, quoted
+   identifiers and comments exactly, code up to whitespace amount and letter case.
+   The faithful model of the current code REFUTES it (witnesses below: the fixers are line based, their quote
+   state restarts on every line, comments / back quotes are not recognised).  What is proved:
+     * C17_*_keeps_code_reading (above): read as code, nothing is added, dropped or merged, for ALL texts;
+     * C17_*_tokens_preserved_partial: the full statement for texts without literals / comments
+       (hypothesis [plain], a boolean; the generator's "clean" stream without quotes satisfies it).
+   Missing for full strength: lexical-state-aware fixers in /repo (see known_findings.d/C17.json). *)
+Definition lex_reading := reading space upper.
+Definition is_plain := plain.
+
+Theorem C17_l001_tokens_preserved_partial : forall t, is_plain t = true -> is_plain (l001_fix t) = true ->
+  lex_reading (l001_fix t) = lex_reading t.
+Proof. exact (preserved_partial space upper l001_fix (l001_cview space upper)). Qed.
+Theorem C17_l002_tokens_preserved_partial : forall t, is_plain t = true -> is_plain (l002_fix t) = true ->
+  lex_reading (l002_fix t) = lex_reading t.
+Proof. exact (preserved_partial space upper l002_fix (l002_cview space upper)). Qed.
+Theorem C17_l003_tokens_preserved_partial : forall t, is_plain t = true -> is_plain (i_l003_fix t) = true ->
+  lex_reading (i_l003_fix t) = lex_reading t.
+Proof. exact (preserved_partial space upper i_l003_fix (l003_cview space upper 1)). Qed.
+Theorem C17_l010_tokens_preserved_partial : forall t, is_plain t = true -> is_plain (l010_fix t) = true ->
+  lex_reading (l010_fix t) = lex_reading t.
+Proof. exact (preserved_partial space upper l010_fix (l010_cview space upper)). Qed.
+Theorem C17_l007_tokens_preserved_partial : forall t, is_plain t = true -> is_plain (i_l007_fix t) = true ->
+  lex_reading (i_l007_fix t) = lex_reading t.
+Proof. exact (preserved_partial space upper i_l007_fix (l007_cview space upper letter digit keywords_tab up_idem up_nows)). Qed.
+Theorem C17_cli_tokens_preserved_partial : forall t, is_plain t = true -> is_plain (i_cli_fix t) = true ->
+  lex_reading (i_cli_fix t) = lex_reading t.
+Proof. exact (preserved_partial space upper i_cli_fix (cli_cview letter digit space upper keywords_tab up_idem up_nows)). Qed.
+Theorem C17_format_tokens_preserved_partial : forall tab spaces final t, is_plain t = true -> is_plain (i_format tab spaces final t) = true ->
+  lex_reading (i_format tab spaces final t) = lex_reading t.
+Proof. exact (fun tab spaces final => preserved_partial space upper (i_format tab spaces final) (format_cview space upper tab spaces final)). Qed.
+
+(* refutations of the full statement on the faithful model (each witness is replayed on the implementation by
+   lib/c17.py: they are the witnesses of the known findings) *)
+Definition rcode (v : list vtok) : list N :=
+  flat_map (fun x => match x with VW => [0] | VC n => [1; n] | VL c => 2 :: cp c :: raw c end)%N v.
+Ltac refute w := exists (decode w); let H := fresh "H" in (intro H; apply (f_equal rcode) in H; vm_compute in H; discriminate H).
+(* trailing blanks inside a multi-line string literal are removed *)
+Theorem C17_l001_tokens_refuted : exists t, lex_reading (l001_fix t) <> lex_reading t.
+Proof. refute ([120; 32; 39; 97; 32; 32; 10; 98; 39]%N). Qed.
+(* a leading tab on the second line of a string literal becomes four spaces *)
+Theorem C17_l002_tokens_refuted : exists t, lex_reading (l002_fix t) <> lex_reading t.
+Proof. refute ([39; 97; 10; 9; 98; 39]%N). Qed.
+(* a blank line inside a string literal is removed *)
+Theorem C17_l003_tokens_refuted : exists t, lex_reading (i_l003_fix t) <> lex_reading t.
+Proof. refute ([39; 97; 10; 10; 10; 98; 39]%N). Qed.
+(* repeated spaces on the second line of a string literal are collapsed *)
+Theorem C17_l010_string_tokens_refuted : exists t, lex_reading (l010_fix t) <> lex_reading t.
+Proof. refute ([39; 97; 10; 98; 32; 32; 99; 39]%N). Qed.
+(* repeated spaces inside a line comment are collapsed *)
+Theorem C17_l010_comment_tokens_refuted : exists t, lex_reading (l010_fix t) <> lex_reading t.
+Proof. refute ([120; 32; 45; 45; 32; 97; 32; 32; 98]%N). Qed.
+(* repeated spaces inside a back-quoted identifier are collapsed *)
+Theorem C17_l010_backtick_tokens_refuted : exists t, lex_reading (l010_fix t) <> lex_reading t.
+Proof. refute ([96; 97; 32; 32; 98; 96]%N). Qed.
+(* a keyword on the second line of a string literal is upper-cased *)
+Theorem C17_l007_string_tokens_refuted : exists t, lex_reading (i_l007_fix t) <> lex_reading t.
+Proof. refute ([39; 97; 10; 115; 101; 108; 101; 99; 116; 39]%N). Qed.
+(* a keyword inside a comment is upper-cased *)
+Theorem C17_l007_comment_tokens_refuted : exists t, lex_reading (i_l007_fix t) <> lex_reading t.
+Proof. refute ([120; 32; 45; 45; 32; 115; 101; 108; 101; 99; 116]%N). Qed.
+(* a back-quoted identifier spelled like a keyword is upper-cased *)
+Theorem C17_l007_backtick_tokens_refuted : exists t, lex_reading (i_l007_fix t) <> lex_reading t.
+Proof. refute ([96; 115; 101; 108; 101; 99; 116; 96]%N). Qed.
+(* the CLI loop applies all of the above *)
+Theorem C17_cli_tokens_refuted : exists t, lex_reading (i_cli_fix t) <> lex_reading t.
+Proof. refute ([39; 97; 32; 32; 10; 10; 10; 9; 115; 101; 108; 101; 99; 116; 32; 32; 120; 39]%N). Qed.
+(* formatSQL trims the lines of a multi-line string literal *)
+Theorem C17_format_tokens_refuted : exists t, lex_reading (i_format 2 true false t) <> lex_reading t.
+Proof. refute ([39; 97; 10; 32; 32; 98; 39]%N). Qed.
 
 Print Assumptions C17_decode_wf.
 Print Assumptions C17_l001_fix_idempotent.
@@ -82,6 +170,8 @@ Print Assumptions C17_l002_fix_idempotent.
 Print Assumptions C17_l003_fix_idempotent.
 Print Assumptions C17_l010_fix_idempotent.
 Print Assumptions C17_l007_fix_idempotent.
+Print Assumptions C17_cli_fix_idempotent.
+Print Assumptions C17_format_idempotent.
 Print Assumptions C17_l001_fix_clears.
 Print Assumptions C17_l002_fix_clears.
 Print Assumptions C17_l003_fix_clears.
@@ -93,18 +183,38 @@ Print Assumptions C17_l002_ws_only.
 Print Assumptions C17_l003_ws_only.
 Print Assumptions C17_l010_ws_only.
 Print Assumptions C17_l007_case_only.
-Print Assumptions C17_l001_keeps_reading.
-Print Assumptions C17_l002_keeps_reading.
-Print Assumptions C17_l003_keeps_reading.
-Print Assumptions C17_l010_keeps_reading.
-Print Assumptions C17_l007_keeps_reading.
-Print Assumptions C17_cli_keeps_reading.
-Print Assumptions C17_format_keeps_reading.
+Print Assumptions C17_l001_keeps_code_reading.
+Print Assumptions C17_l002_keeps_code_reading.
+Print Assumptions C17_l003_keeps_code_reading.
+Print Assumptions C17_l010_keeps_code_reading.
+Print Assumptions C17_l007_keeps_code_reading.
+Print Assumptions C17_cli_keeps_code_reading.
+Print Assumptions C17_format_keeps_code_reading.
+Print Assumptions C17_l001_tokens_refuted.
+Print Assumptions C17_l002_tokens_refuted.
+Print Assumptions C17_l003_tokens_refuted.
+Print Assumptions C17_l010_string_tokens_refuted.
+Print Assumptions C17_l010_comment_tokens_refuted.
+Print Assumptions C17_l010_backtick_tokens_refuted.
+Print Assumptions C17_l007_string_tokens_refuted.
+Print Assumptions C17_l007_comment_tokens_refuted.
+Print Assumptions C17_l007_backtick_tokens_refuted.
+Print Assumptions C17_cli_tokens_refuted.
+Print Assumptions C17_format_tokens_refuted.
+Print Assumptions C17_l001_tokens_preserved_partial.
+Print Assumptions C17_l002_tokens_preserved_partial.
+Print Assumptions C17_l003_tokens_preserved_partial.
+Print Assumptions C17_l010_tokens_preserved_partial.
+Print Assumptions C17_l007_tokens_preserved_partial.
+Print Assumptions C17_cli_tokens_preserved_partial.
+Print Assumptions C17_format_tokens_preserved_partial.
 
 (* ---- non-vacuity: the hypotheses are met by concrete, non-trivial texts; the fixers do change them ---- *)
 Local Open Scope N_scope.
 Definition ex_bytes : list N :=   (* "select  1 \n\n\n\tfrom t\t" *)
   [115;101;108;101;99;116;32;32;49;32;10;10;10;9;102;114;111;109;32;116;9].
+Example ex_plain : is_plain (decode ex_bytes) = true /\ is_plain (i_cli_fix (decode ex_bytes)) = true.
+Proof. vm_compute. split; reflexivity. Qed.
 Example ex_wf : wft (decode ex_bytes).
 Proof. apply decode_wf. Qed.
 Example ex_l001_flags : l001_check (decode ex_bytes) = [(1, 10); (4, 8)]%nat.
